@@ -271,7 +271,8 @@ def main(argv):
     if pid == 'all':
         rc = 0
         for p in sorted(props.PROPS):
-            rc = max(rc, run_property(p, tier))
+            # one process per property: contract modules of different properties declare the same dependencies
+            rc = max(rc, subprocess.call([sys.executable, os.path.abspath(__file__), p, '--tier', tier]))
         return rc
     try:
         return run_property(pid, tier, only)
